@@ -1,6 +1,7 @@
 (* C06 - the V3 handshake: key agreement when genuine, sound rejection otherwise. Statements only (packet level;
    the session-level clauses are in the Session theorems below once built). *)
-From MS Require Import lib.Base gen.GenLan crypto.SHA256 crypto.Modes model.Lan spec.RefLan proofs.LanV3Proofs.
+From MS Require Import lib.Base gen.GenLan crypto.SHA256 crypto.Modes model.Lan model.Session spec.RefLan proofs.LanV3Proofs
+  proofs.SessionProofs proofs.SessionHoare.
 Local Open Scope N_scope.
 
 (* authentication succeeds EXACTLY when the 64-byte reply proves knowledge of the key: it is CBC(key, nonce) ||
@@ -27,6 +28,21 @@ Theorem C06_agreement : forall key nonce r pid data rnd,
               /\ ref_v3_parse_request (ref_session_key key nonce) p = Some (pid, data).
 Proof. exact handshake_agreement. Qed.
 Print Assumptions C06_agreement.
+
+(* session level: an authentication that fails - for whatever reply, in whatever state - is an authentication / protocol /
+   timeout error, replaces neither the stored token nor the stored key, and has written nothing but handshake requests *)
+Theorem C06_failure_is_contained : forall g r, hoare (fun _ => True) (lan_authenticate g (S r)) (fun _ _ => True) (fun e _ => allowed e).
+Proof. exact lan_authenticate_contained. Qed.
+Theorem C06_failure_keeps_credentials : forall g r w e,
+  fst (lan_authenticate g r w) = Err e -> l_creds (w_lan (snd (lan_authenticate g r w))) = l_creds (w_lan w).
+Proof. exact authenticate_failure_keeps_credentials. Qed.
+Theorem C06_only_handshakes_written : forall g r w, exists evs,
+  w_log (snd (lan_authenticate g r w)) = w_log w ++ evs /\ (ndata evs <= 0)%nat.
+Proof. exact bounded_lan_auth. Qed.
+(* the session key changes only by accepting a genuine reply: see C07_trace_discipline (EvAuthOk) *)
+Print Assumptions C06_failure_is_contained.
+Print Assumptions C06_failure_keeps_credentials.
+Print Assumptions C06_only_handshakes_written.
 
 Example C06_nonvacuous :
   let key := map N.of_nat (seq 1 32) in let nonce := map N.of_nat (seq 50 32) in
